@@ -276,8 +276,18 @@ fn main() {
             forced_chunks = Some(ch);
             rst_possible = true;
         }
+        // streams whose length is an exact multiple of the server's 1024-byte read chunk (a final unknown command with one padding argument: its reply is a short error line): the last
+        // read fills the chunk exactly and nothing follows it
+        let aligned = !near_cap && !closed && case % 8 == 6;
+        if aligned {
+            for st in [&mut stream, &mut stream_single] {
+                let mut padlen = 1usize;
+                loop { let f = array(&[bulk(b"PADDING"), bulk(&vec![b'p'; padlen])]); if (st.len() + f.len()) % 1024 == 0 { st.extend_from_slice(&f); break; } padlen += 1; }
+            }
+            if rng.chance(1, 2) { forced_chunks = Some(vec![stream.clone()]); }
+        }
         // optionally leave the last frame incomplete
-        if !near_cap && !closed && rng.chance(1, 8) && stream.len() > 2 { let cut = rng.below(3) as usize + 1; stream.truncate(stream.len() - cut.min(stream.len() - 1)); stream_single.truncate(stream_single.len() - cut.min(stream_single.len() - 1)); }
+        if !near_cap && !closed && !aligned && rng.chance(1, 8) && stream.len() > 2 { let cut = rng.below(3) as usize + 1; stream.truncate(stream.len() - cut.min(stream.len() - 1)); stream_single.truncate(stream_single.len() - cut.min(stream_single.len() - 1)); }
         let chunks = match forced_chunks { Some(c) => c, None => split(&mut rng, &stream) };
         let before = snap(&metrics);
         let (reply, wf) = run_conn(port, &chunks, if chunks.len() > 400 { 0 } else { 300 });
